@@ -46,7 +46,7 @@ theorem delivered_is_prefix (ops : List Op) (script : List Beh) :
   (render_facts ops script).1
 
 example : delivered (renderTo [.write (.str [104, 105]), .write (.str [33])]
-      [.accept 1, .err ⟨.brokenPipe, 7⟩]).calls = [104] ∧
+      [.accept 1, .err ⟨.brokenPipe, 7, .msg⟩]).calls = [104] ∧
     (renderString [.write (.str [104, 105]), .write (.str [33])]).buf = [104, 105, 33] := by decide
 
 /-- **Nothing after an error**: a `write` call at which the sink failed (a non-`Interrupted`
@@ -68,11 +68,14 @@ theorem nothing_after_error (ops : List Op) (script : List Beh) (i : Nat)
     · omega
 
 example : (renderTo [.write (.str [1, 2]), .write (.str [3]), .write (.str [4])]
-      [.all, .err ⟨.other, 9⟩]).calls.length = 2 := by decide
+      [.all, .err ⟨.other, 9, .bare⟩]).calls.length = 2 := by decide
 
 /-- **The error is the sink's own**: if the sink failed with `e` at any call, the API returns
     `Err` of kind `WriteFailure` whose source is `e` — not `Ok`, not another kind (whatever nested
-    include/super evaluation was being unwound), not a panic. -/
+    include/super evaluation was being unwound), not a panic.  `e` ranges over ALL error tokens
+    (`script` is arbitrary): bare kinds, raw OS errors, string and custom payloads, payloads that
+    are engine errors themselves (of kind `WriteFailure` too, with source chains), nested
+    `io::Error`s — the token comes back untouched. -/
 theorem error_is_write_failure_with_source (ops : List Op) (script : List Beh) (c : Call)
     (hc : c ∈ (renderTo ops script).calls) (e : IoErr) (hf : c.failure = some e) :
     (renderTo ops script).result = .ok (.error (.writeFailure (some e))) := by
@@ -87,8 +90,8 @@ theorem error_is_write_failure_with_source (ops : List Op) (script : List Beh) (
       cases hf
       exact hres
 
-example : (renderTo [.enter .badInclude, .write (.str [1]), .leave] [.err ⟨.wouldBlock, 5⟩]).result
-    = .ok (.error (.writeFailure (some ⟨.wouldBlock, 5⟩))) := by rfl
+example : (renderTo [.enter .badInclude, .write (.str [1]), .leave] [.err ⟨.wouldBlock, 5, .engine (.leaf .invalidOperation)⟩]).result
+    = .ok (.error (.writeFailure (some ⟨.wouldBlock, 5, .engine (.leaf .invalidOperation)⟩))) := by rfl
 example : (renderTo [.write (.str [1, 2])] [.accept 1, .accept 0]).result
     = .ok (.error (.writeFailure (some writeZeroErr))) := by rfl
 
@@ -113,9 +116,9 @@ theorem success_delivers_all (ops : List Op) (script : List Beh)
   · rw [hres] at h; cases h
 
 example : (renderTo [.write (.str [1, 2, 3]), .write (.chr [4])]
-      [.accept 1, .err ⟨.interrupted, 1⟩, .half]).result = .ok (.ok ()) ∧
+      [.accept 1, .err ⟨.interrupted, 1, .msg⟩, .half]).result = .ok (.ok ()) ∧
     delivered (renderTo [.write (.str [1, 2, 3]), .write (.chr [4])]
-      [.accept 1, .err ⟨.interrupted, 1⟩, .half]).calls = [1, 2, 3, 4] := ⟨by rfl, by decide⟩
+      [.accept 1, .err ⟨.interrupted, 1, .msg⟩, .half]).calls = [1, 2, 3, 4] := ⟨by rfl, by decide⟩
 
 /-- Short (non-empty) writes and `Interrupted` are absorbed: with such a sink the render behaves
     exactly like the plain render. -/
@@ -133,7 +136,7 @@ theorem benign_sink_same_as_plain (ops : List Op) (script : List Beh)
     rw [hcalls, f1] at hfw
     exact failsWith_not_clean hfw (f3 hok).2.1
 
-example : ∀ b ∈ [Beh.accept 1, .err ⟨.interrupted, 1⟩, .half, .all], b.benign = true := by decide
+example : ∀ b ∈ [Beh.accept 1, .err ⟨.interrupted, 1, .msg⟩, .half, .all], b.benign = true := by decide
 
 /-- **Captures do not touch the sink** (local form): while a capture or discard is open a write
     leaves the base writer untouched and cannot fail. -/
@@ -171,9 +174,7 @@ theorem no_panic (ops : List Op) (script : List Beh) (hb : balanced 0 ops = true
   | ok x =>
     cases x with
     | error e => simp [WriteWrapper.finish]
-    | ok u =>
-      simp only [WriteWrapper.finish]
-      split <;> simp
+    | ok u => simp [WriteWrapper.finish]
 
 example : balanced 0 [.beginCapture false, .write (.str [2]), .endCapture, .write (.str [4])] = true := by
   decide
@@ -242,9 +243,9 @@ example :
         .seq (.emit (.str (v.getD []))) (.emit (.str ((v.getD []).reverse)))))
     flatten p = [.write (.str [1]), .enter .badInclude, .beginCapture false, .write (.str [2, 3]),
       .endCapture, .write (.str [2, 3]), .write (.str [3, 2]), .leave] ∧
-    (renderProgTo p [.all, .accept 1, .err ⟨.brokenPipe, 3⟩]).result
-      = .ok (.error (.writeFailure (some ⟨.brokenPipe, 3⟩))) ∧
-    delivered (renderProgTo p [.all, .accept 1, .err ⟨.brokenPipe, 3⟩]).calls = [1, 2] :=
+    (renderProgTo p [.all, .accept 1, .err ⟨.brokenPipe, 3, .os 11⟩]).result
+      = .ok (.error (.writeFailure (some ⟨.brokenPipe, 3, .os 11⟩))) ∧
+    delivered (renderProgTo p [.all, .accept 1, .err ⟨.brokenPipe, 3, .os 11⟩]).calls = [1, 2] :=
   ⟨by decide, by rfl, by decide⟩
 
 /-! ## `Interrupted`, the `Emit` layer, and the facts read off the source -/
@@ -270,8 +271,8 @@ theorem interrupted_is_invisible (ops : List Op) (script : List Beh) :
       cases herr'
       rw [hres, hres']
 
-example : dropInterrupts [.err ⟨.interrupted, 1⟩, .accept 1, .err ⟨.interrupted, 2⟩, .err ⟨.brokenPipe, 3⟩]
-    = [.accept 1, .err ⟨.brokenPipe, 3⟩] := by decide
+example : dropInterrupts [.err ⟨.interrupted, 1, .msg⟩, .accept 1, .err ⟨.interrupted, 2, .msg⟩, .err ⟨.brokenPipe, 3, .os 11⟩]
+    = [.accept 1, .err ⟨.brokenPipe, 3, .os 11⟩] := by decide
 
 /-- **`HtmlEscape` chunking**: the pieces `HtmlEscape::fmt` writes are non-empty (each one is a
     real call of the sink) and concatenate to the byte-wise escaped text — with the escape table
@@ -306,10 +307,10 @@ theorem emit_html_string (s : Bytes) (script : List Beh) :
   rw [hs] at h1 h2
   exact ⟨h1, fun h => (h2 h).2⟩
 
-example : (match (renderTo (emitOps .html (.str [60, 62])) [.all, .accept 2, .err ⟨.other, 4⟩]).result with
+example : (match (renderTo (emitOps .html (.str [60, 62])) [.all, .accept 2, .err ⟨.other, 4, .custom⟩]).result with
       | .ok (.error (.writeFailure (some e))) => e.id == 4
       | _ => false) = true ∧
-    delivered (renderTo (emitOps .html (.str [60, 62])) [.all, .accept 2, .err ⟨.other, 4⟩]).calls
+    delivered (renderTo (emitOps .html (.str [60, 62])) [.all, .accept 2, .err ⟨.other, 4, .custom⟩]).calls
       = "&lt;&g".toUTF8.toList := by decide +kernel
 
 /-- **User formatting code that fails by itself** (an `Object::render`, `Display` or custom
@@ -394,8 +395,8 @@ theorem adapter_stores_error (w : WriteWrapper) (c : Chunk) :
     | none => simp [hw]
     | some e => simp
 
-example : (put (⟨[.accept 1, .err ⟨.other, 2⟩], [], none⟩ : WriteWrapper) (.chr [195, 169])).1.err
-    = some ⟨.other, 2⟩ := by decide
+example : (put (⟨[.accept 1, .err ⟨.other, 2, .io .other .msg⟩], [], none⟩ : WriteWrapper) (.chr [195, 169])).1.err
+    = some ⟨.other, 2, .io .other .msg⟩ := by decide
 
 /-- the methods implemented in `impl fmt::Write for WriteWrapper` (regenerated from the source)
     are exactly the two of the model, and each stores the io::Error on every failing path; an
@@ -429,7 +430,7 @@ theorem dropped_errors_change_nothing (uops : List UOp) (script : List Beh) :
       | panic => right; rfl
       | ok x =>
         left
-        cases x <;> simp [WriteWrapper.finish, WriteWrapper.takeErr, he]
+        rw [finish_of_some he _ (by simp), finish_of_some he _ (by simp)]
 
 /-- **C19 against careless user code**: whatever user code does with the results of its writes,
     what the sink accepted is a prefix of the plain render's string, the call at which the sink
@@ -455,7 +456,7 @@ theorem C19_with_careless_user_code (uops : List UOp) (script : List Beh) :
     (`WouldBlock`) and would work again: one failed call, nothing after it, `WriteFailure` -/
 example :
     let r := renderToU [.strict (.write (.str [97])), .writeIgn (.str [120]), .writeIgn (.str [62]),
-      .strict (.write (.str [98]))] [.all, .err ⟨.wouldBlock, 3⟩]
+      .strict (.write (.str [98]))] [.all, .err ⟨.wouldBlock, 3, .engine (.overIo .writeFailure .brokenPipe 3)⟩]
     r.calls.length = 2 ∧ delivered r.calls = [97] ∧
     (match r.result with | .ok (.error (.writeFailure (some e))) => e.id == 3 | _ => false) = true := by
   decide
@@ -473,5 +474,217 @@ example : trackFailed [true, false, true] = true := by decide
 theorem tracker_update_is_or :
     MJ.Gen.c19TrackerUpdate = [("write_str", "|="), ("write_char", "|=")] := by
   decide +kernel
+
+/-! ## the sink's error is an opaque token: the boundary wraps it untouched -/
+
+/-- **The boundary returns the token untouched.**  With `io` in the adapter's error slot —
+    whatever `io` is, also an `io::Error` whose payload is an engine error — `write_failure` is
+    `WriteFailure` with source `io`; `take_err` returns that instead of any evaluation error,
+    `check` instead of any success, and so does the API (`finish`) unless the evaluation panicked. -/
+theorem boundary_returns_token_untouched (w : WriteWrapper) (io : IoErr) (h : w.err = some io) :
+    writeFailure io = .writeFailure (some io) ∧
+    (∀ original, w.takeErr original = .writeFailure (some io)) ∧
+    w.check = .error (.writeFailure (some io)) ∧
+    (∀ r, r ≠ .panic → w.finish r = .ok (.error (.writeFailure (some io)))) :=
+  ⟨rfl, takeErr_of_some h, check_of_some h, fun r hr => finish_of_some h r hr⟩
+
+example : (⟨[], [], some ⟨.other, 1, .engine (.leaf .invalidOperation)⟩⟩ : WriteWrapper).check
+    = .error (.writeFailure (some ⟨.other, 1, .engine (.leaf .invalidOperation)⟩)) := by rfl
+
+/-- **A sink error is never unwrapped.**  If the sink's error carries an engine error as payload
+    (`e.unwrapped = some x`: it "looks like" an error of the engine — an `InvalidOperation`, an
+    `UndefinedError`, even a `WriteFailure` with or without an I/O source of its own), the API
+    still returns `WriteFailure` with the sink's error `e` as source, and never the payload `x`. -/
+theorem source_is_never_unwrapped (ops : List Op) (script : List Beh) (c : Call)
+    (hc : c ∈ (renderTo ops script).calls) (e : IoErr) (hf : c.failure = some e) (x : Err)
+    (hx : e.unwrapped = some x) :
+    (renderTo ops script).result = .ok (.error (.writeFailure (some e))) ∧
+    (renderTo ops script).result ≠ .ok (.error x) := by
+  have h := error_is_write_failure_with_source ops script c hc e hf
+  refine ⟨h, ?_⟩
+  rw [h]
+  intro hcontra
+  have hx' : x = .writeFailure (some e) := by
+    injection hcontra with h1
+    injection h1 with h2
+    exact h2.symm
+  subst hx'
+  obtain ⟨k, i, pl⟩ := e
+  cases pl with
+  | engine ee =>
+    simp only [IoErr.unwrapped, Option.some.injEq] at hx
+    cases ee with
+    | leaf kk => cases kk <;> simp [EngErr.toErr, EngErr.kind] at hx
+    | chain kk src => cases kk <;> simp [EngErr.toErr, EngErr.kind] at hx
+    | overIo kk ik iid => cases kk <;> simp [EngErr.toErr, EngErr.kind] at hx
+  | bare => simp [IoErr.unwrapped] at hx
+  | os code => simp [IoErr.unwrapped] at hx
+  | msg => simp [IoErr.unwrapped] at hx
+  | custom => simp [IoErr.unwrapped] at hx
+  | io kk inner => simp [IoErr.unwrapped] at hx
+
+/-- the sink answers with `io::Error::new(Other, minijinja::Error::new(WriteFailure, ..).with_source(
+    io::Error::new(BrokenPipe, ..)))` at its second call, inside an include -/
+example :
+    let tok : IoErr := ⟨.other, 8, .engine (.overIo .writeFailure .brokenPipe 8)⟩
+    tok.unwrapped = some (.writeFailure (some ⟨.brokenPipe, 8, .msg⟩)) ∧
+    (renderTo [.write (.str [1]), .enter .badInclude, .write (.str [2]), .leave] [.all, .err tok]).result
+      = .ok (.error (.writeFailure (some tok))) := ⟨by decide, by rfl⟩
+
+/-- **`write_failure`, `take_err`, `check` do not look at the io::Error** (regenerated from
+    output.rs): `write_failure` only hands its parameter on to `with_source` and mentions no kind
+    but `WriteFailure`, without any branch; `take_err` maps the slot through `write_failure`;
+    `check` has the one `match` on the slot and hands the error to `write_failure`.  A branch that
+    inspects the error before wrapping it (`get_ref`, `kind`, `into_inner`, `downcast`, …) is a
+    new use and a new branch, and this fails. -/
+theorem boundary_wraps_untouched :
+    MJ.Gen.c19BoundaryBodies =
+      [("write_failure", "arg:with_source", "", 0, "WriteFailure"),
+       ("take_err", "", "take.map(write_failure).unwrap_or", 0, ""),
+       ("check", "arg:write_failure", "take", 1, "")] := by
+  decide +kernel
+
+/-- both functions that build a `WriteWrapper` pass a success through `check` and a failure
+    through `take_err`, once each, on the `Ok` / `Err` arm of the evaluation's result -/
+theorem boundary_sites_check_and_take :
+    MJ.Gen.c19BoundarySites =
+      [("template.rs", "render_captured_to", 1, 1, 1, 1),
+       ("vm/state.rs", "render_block_to_write", 1, 1, 1, 1)] := by
+  decide +kernel
+
+/-! ## stickiness of the adapter -/
+
+/-- **Sticky after the first error.**  Once the adapter holds the sink's error `e`, nothing that
+    follows — engine operations and user code of ANY behaviour (`UserCode`: strategies that see
+    the result of each write and go on writing, swallow the error, return `Ok` or `Err`) — gets
+    another call through to the sink or changes the error slot; every write that reaches the base
+    writer reports `fmt::Error`; and the API returns `WriteFailure` with source `e` whatever the
+    rest of the evaluation returned (unless it panicked). -/
+theorem sticky_after_error (xops : List XOp) (st : St WriteWrapper) (e : IoErr)
+    (h : st.out.w.err = some e) :
+    (runX xops st).1.out.w = st.out.w ∧
+    (∀ (u : UserCode), (u.run st.out).1.w = st.out.w) ∧
+    (∀ c, st.out.stack = [] → (st.out.write c).2 = false) ∧
+    ((runX xops st).2 ≠ .panic →
+      (runX xops st).1.out.w.finish (runX xops st).2 = .ok (.error (.writeFailure (some e)))) := by
+  have hw := runX_poisoned xops st h
+  refine ⟨hw, fun u => UserCode.run_poisoned u st.out h, ?_, fun hp => finish_of_some (by rw [hw]; exact h) _ hp⟩
+  intro c hs
+  obtain ⟨⟨w, stack⟩, wraps⟩ := st
+  simp only at hs h
+  subst hs
+  simp [Out.write, put_wrapper, writeBytes_of_some h]
+
+/-- an object that keeps writing after the failure, looks at the results, and returns `Ok`;
+    the sink would accept everything again: it is not called -/
+example :
+    let w : WriteWrapper := ⟨[.all, .all], [⟨[1], .err ⟨.wouldBlock, 2, .custom⟩⟩], some ⟨.wouldBlock, 2, .custom⟩⟩
+    let u : UserCode := .write (.str [7]) fun ok => if ok then .ret true else .write (.chr [8]) fun _ => .ret true
+    (runX [.user u, .strict (.write (.str [9]))] ⟨⟨w, []⟩, []⟩).1.out.w = w ∧
+    (u.run ⟨w, []⟩).2 = true := ⟨by rfl, by rfl⟩
+
+/-- the methods of `impl fmt::Write for WriteWrapper` (regenerated) return `Err(fmt::Error)` when
+    the slot is set, before anything is handed to the sink — the guard the model's `writeBytes` has -/
+theorem writewrapper_methods_sticky :
+    MJ.Gen.c19WriteWrapperSticky = [("write_str", true), ("write_char", true)] := by
+  decide +kernel
+
+/-- **C19 with user code of any behaviour.**  Let user formatting code be arbitrary strategies
+    (`XOp.user`).  For every render and every sink: what the sink accepted is a prefix of the
+    string the plain render builds (in which every strategy takes its all-writes-succeeded path);
+    a call at which the sink failed is the last one it receives; if it failed with `e` the API
+    returns `WriteFailure` with source `e` (or the user code panicked afterwards); and if it never
+    failed, result and bytes are the plain render's. -/
+theorem C19_with_user_strategies (xops : List XOp) (script : List Beh) :
+    delivered (renderToX xops script).calls <+: (renderStringX xops).buf ∧
+    (∀ (i : Nat) (h : i < (renderToX xops script).calls.length),
+        ((renderToX xops script).calls[i]).failure ≠ none → i + 1 = (renderToX xops script).calls.length) ∧
+    (∀ c ∈ (renderToX xops script).calls, ∀ e, c.failure = some e →
+        (renderToX xops script).result = .ok (.error (.writeFailure (some e))) ∨
+        (renderToX xops script).result = .panic) ∧
+    ((∀ c ∈ (renderToX xops script).calls, c.failure = none) →
+        (renderToX xops script).result = (renderStringX xops).result ∧
+        delivered (renderToX xops script).calls = (renderStringX xops).buf) := by
+  obtain ⟨hp, hcase⟩ := renderX_facts xops script
+  refine ⟨hp, ?_, ?_, ?_⟩
+  · intro i hi hf
+    rcases hcase with ⟨hc, _, _⟩ | ⟨e, hfw, _⟩
+    · exact absurd (hc _ (List.getElem_mem hi)) hf
+    · exact failsWith_last_only hfw i hi hf
+  · intro c hc e hf
+    rcases hcase with ⟨hcl, _, _⟩ | ⟨e', hfw, hres⟩
+    · rw [hcl c hc] at hf; cases hf
+    · rw [failsWith_unique hfw hc hf]; exact hres
+  · intro hcl
+    rcases hcase with ⟨_, hres, hd⟩ | ⟨e, hfw, _⟩
+    · exact ⟨hres, hd⟩
+    · exact absurd hcl (failsWith_not_clean hfw)
+
+/-- a formatter that writes a prefix, and on failure writes an apology and returns `Ok`: the sink
+    fails at the formatter's first write with an error that carries an engine error -/
+example :
+    let u : UserCode := .write (.str [40]) fun ok =>
+      if ok then .write (.str [41]) fun _ => .ret true else .write (.str [33, 33]) fun _ => .ret true
+    let r := renderToX [.strict (.write (.str [97])), .user u, .strict (.write (.str [98]))]
+      [.all, .err ⟨.other, 5, .engine (.leaf .undefinedError)⟩]
+    r.calls.length = 2 ∧ delivered r.calls = [97] ∧
+    r.result = .ok (.error (.writeFailure (some ⟨.other, 5, .engine (.leaf .undefinedError)⟩))) ∧
+    (renderStringX [.strict (.write (.str [97])), .user u, .strict (.write (.str [98]))]).buf = [97, 40, 41, 98] :=
+  ⟨by decide, by decide, by rfl, by decide⟩
+
+/-! ## evaluations on an `Output` of their own (macros, `caller()`, `Expression::eval`, block
+rendering from a function) -/
+
+/-- **An `Output` of its own is invisible to the caller's sink**: a macro / `caller()` body
+    (`Fresh.string`), an expression evaluation (`Fresh.null`) or a block rendered into another
+    writer from a function (`Fresh.sink`) contributes no operation to the caller's output; the
+    caller goes on with the string that was built, or fails with the error of the call. -/
+theorem own_output_is_isolated {B : Type} [FmtWrite B] (f : Fresh) (body : Prog) (k : Bytes → Prog)
+    (o : Out B) :
+    ((ownRun f body).2 = .ok (.ok ()) → exec (.own f body k) o = exec (k (ownRun f body).1) o) ∧
+    (∀ e, (ownRun f body).2 = .ok (.error e) → exec (.own f body k) o = (o, .ok (.error e))) ∧
+    (ownRun f body).2 ≠ .panic := by
+  refine ⟨?_, ?_, ownRun_no_panic f body⟩
+  · intro h
+    rw [exec_own]
+    rcases hr : ownRun f body with ⟨v, res⟩
+    rw [hr] at h
+    simp only at h
+    subst h
+    rfl
+  · intro e h
+    rw [exec_own]
+    rcases hr : ownRun f body with ⟨v, res⟩
+    rw [hr] at h
+    simp only at h
+    subst h
+    rfl
+
+/-- **`render_block_to_write` from inside a function**: the render into the function's own sink
+    is a writer render of the block (so `C19_structured` holds for it: prefix, nothing after the
+    error, `WriteFailure` with the sink's error), and that error is what the function call
+    returns to the outer render. -/
+theorem block_render_inside_function (script : List Beh) (body : Prog) :
+    ownOutcome script body = renderProgTo body script ∧
+    (ownRun (.sink script) body).2 = (renderProgTo body script).result ∧
+    (∀ c ∈ (ownOutcome script body).calls, ∀ e, c.failure = some e →
+      ∀ {B : Type} [FmtWrite B] (k : Bytes → Prog) (o : Out B),
+        exec (.own (.sink script) body k) o = (o, .ok (.error (.writeFailure (some e))))) := by
+  refine ⟨rfl, rfl, ?_⟩
+  intro c hc e hf B _ k o
+  have h := (C19_structured body script).2.2.1 c hc e hf
+  exact (own_output_is_isolated (.sink script) body k o).2.1 _ h
+
+/-- a macro whose result is printed in upper case inside an include, and a block rendered into a
+    second sink from a function: the second sink fails with a custom error -/
+example :
+    let mac : Prog := .own .string (.seq (.emit (.str [104])) (.emit (.str [105]))) fun v =>
+      .emit (.str (v.map fun b => b - 32))
+    let p : Prog := .seq (.emit (.str [1])) (.nested .badInclude mac)
+    flatten p = [.write (.str [1]), .enter .badInclude, .write (.str [72, 73]), .leave] ∧
+    delivered (renderProgTo p [.all, .accept 1, .err ⟨.brokenPipe, 3, .custom⟩]).calls = [1, 72] ∧
+    (exec (.own (.sink [.err ⟨.timedOut, 4, .custom⟩]) (.emit (.str [5])) fun _ => .skip)
+      (⟨([] : Bytes), []⟩ : Out Bytes)).2 = .ok (.error (.writeFailure (some ⟨.timedOut, 4, .custom⟩))) :=
+  ⟨by decide, by decide, by rfl⟩
 
 end MJ.C19
